@@ -33,6 +33,11 @@
   `Lemmas/C08Hist.lean`): `detectInstH true` / `bsInstH true` = the code with `fixes/C08-detect-cache-stale-minp.diff`
   applied (the main model); `… false` = the pinned tree, whose `_cache` ignores `min_p`
   (`detect_history_minp_fails_on_current_code`).
+  Proof round 6 (`Lemmas/C08HistBs.lean`, `Lemmas/C08MixPos.lean`, `Lemmas/C08MixLog.lean`): the exact pinned-code law of
+  `BSLayeredPPNR` with `clear_cache()` (`bs_history_minp_pinned_law`, witness `bs_history_minp_fails_on_current_code`);
+  the positivity hypotheses of `probs_svd_mix_pnr_law` characterised exactly (`probs_svd_mix_pnr_hyps_iff`,
+  `probs_svd_mix_pnr_hyps_nomask_iff`, `probs_svd_mix_pnr_law_of_weights`); the closed form of `logical_perf` of a mixture
+  through imperfect detectors (`probs_svd_mix_logical_closed`).
   What is still not proved is listed at the end of this file.
 -/
 import PercevalModel.Lemmas.C08
@@ -46,6 +51,9 @@ import PercevalModel.Lemmas.C08Thr
 import PercevalModel.Lemmas.C08Sample
 import PercevalModel.Lemmas.C08Mix
 import PercevalModel.Lemmas.C08Hist
+import PercevalModel.Lemmas.C08HistBs
+import PercevalModel.Lemmas.C08MixPos
+import PercevalModel.Lemmas.C08MixLog
 import Mathlib.Algebra.Order.Field.Rat
 
 set_option linter.unusedSectionVars false
@@ -1597,6 +1605,220 @@ theorem probs_svd_mix_phys_normalised (F : ℕ) (ms : List (Member K)) (hsum : (
   rw [e] at this
   linarith
 
+/-! ### round 6: when the positivity hypotheses of `probs_svd_mix_pnr_law` hold, and the closed form of `logical_perf` -/
+
+/-- **the two positivity hypotheses of `probs_svd_mix_pnr_law`, exactly**: for positive weights of total at most one
+and non-negative member dictionaries, at EVERY `min_p`, precision, filter, herald set and mask flag,
+`0 < mass(D)` and `0 < prePhys` hold together IFF some member kept by `_preprocess_svd` has positive mass in what the
+backend returns for it (with the heralds mask: positive mass on the herald-satisfying states). -/
+theorem probs_svd_mix_pnr_hyps_iff (minP rel : K) (F : ℕ) (h : List (ℕ × ℕ)) (mask : Bool) (ms : List (Member K))
+    (hp : ∀ m ∈ ms, 0 < m.p) (hsum : (ms.map (·.p)).sum ≤ 1) (hnn : ∀ m ∈ ms, Nonneg m.base) :
+    (0 < mass (mixRaw h mask (preKept minP rel F ms)).1 ∧ 0 < prePhys F ms)
+      ↔ ∃ m ∈ preKept minP rel F ms, 0 < mass (memberRaw h mask m) := by
+  have hkm : ∀ m ∈ preKept minP rel F ms, m ∈ ms := fun m hm => (List.mem_filter.mp hm).1
+  have hiff := mixRaw_mass_pos_iff h mask (preKept minP rel F ms) (fun m hm => hp m (hkm m hm))
+    (fun m hm => hnn m (hkm m hm))
+  constructor
+  · rintro ⟨h1, _⟩
+    exact hiff.mp h1
+  · rintro ⟨m, hm, hmass⟩
+    refine ⟨hiff.mpr ⟨m, hm, hmass⟩, ?_⟩
+    have hc := (List.mem_filter.mp hm).2
+    simp only [Bool.and_eq_true, decide_eq_true_eq] at hc
+    exact prePhys_pos_of_weights F ms (fun x hx => (hp x hx).le) hsum m (hkm m hm) hc.2 (hp m (hkm m hm))
+
+/-- without the mask (no heralds) and with NORMALISED members the condition is a comparison of two numbers of
+`_preprocess_svd`: the threshold `max(min_p, max_p·precision)` is below `max_p` (for a precision `< 1`: `min_p < max_p`
+and `0 < max_p`, `preKept_ne_nil_iff_of_rel_lt_one`) -/
+theorem probs_svd_mix_pnr_hyps_nomask_iff (minP rel : K) (F : ℕ) (h : List (ℕ × ℕ)) (ms : List (Member K))
+    (hp : ∀ m ∈ ms, 0 < m.p) (hsum : (ms.map (·.p)).sum ≤ 1) (hb : ∀ m ∈ ms, mass m.base = 1) :
+    (0 < mass (mixRaw h false (preKept minP rel F ms)).1 ∧ 0 < prePhys F ms)
+      ↔ preThreshold minP rel F ms < preMaxP F ms := by
+  have hkm : ∀ m ∈ preKept minP rel F ms, m ∈ ms := fun m hm => (List.mem_filter.mp hm).1
+  have hiff := mixRaw_mass_pos_iff_nomask h (preKept minP rel F ms) (fun m hm => hp m (hkm m hm))
+    (fun m hm => hb m (hkm m hm))
+  rw [← preKept_ne_nil_iff]
+  constructor
+  · rintro ⟨h1, _⟩
+    exact hiff.mp h1
+  · intro hne
+    refine ⟨hiff.mpr hne, ?_⟩
+    obtain ⟨m, hm⟩ := List.exists_mem_of_ne_nil _ hne
+    have hc := (List.mem_filter.mp hm).2
+    simp only [Bool.and_eq_true, decide_eq_true_eq] at hc
+    exact prePhys_pos_of_weights F ms (fun x hx => (hp x hx).le) hsum m (hkm m hm) hc.2 (hp m (hkm m hm))
+
+/-- **which members `_preprocess_svd` keeps**: some member survives iff `max(min_p, max_p·precision) < max_p` — for every
+`min_p`, precision, filter and member list, with no condition on the weights -/
+theorem preprocess_keeps_some_iff (minP rel : K) (F : ℕ) (ms : List (Member K)) :
+    preKept minP rel F ms ≠ [] ↔ preThreshold minP rel F ms < preMaxP F ms :=
+  preKept_ne_nil_iff minP rel F ms
+
+/-- **when the input filter's `physical_perf` is positive**: for a normalised input with positive weights, iff some
+member has at least `F` photons (for weights of total ≤ 1 the direction ⇐ is `prePhys_pos_of_weights`) -/
+theorem preprocess_phys_pos_iff (F : ℕ) (ms : List (Member K)) (hp : ∀ m ∈ ms, 0 < m.p)
+    (hsum : (ms.map (·.p)).sum = 1) : 0 < prePhys F ms ↔ ∃ m ∈ ms, F ≤ m.n :=
+  prePhys_pos_iff F ms hp hsum
+
+/-- positive weights and normalised members alone do NOT give `0 < mass(D)` under the heralds mask: one member
+`{|0,1>: 1}` of weight 1 with the herald `{0: 1}` — the backend returns nothing for it -/
+theorem probs_svd_mix_pnr_mass_needs_herald_support :
+    let ms : List (Member ℚ) := [⟨1, 1, [([0, 1], 1)]⟩]
+    (∀ m ∈ ms, 0 < m.p) ∧ (ms.map (·.p)).sum = 1 ∧ (∀ m ∈ ms, Nonneg m.base ∧ mass m.base = 1) ∧
+      preKept (0 : ℚ) 0 1 ms = ms ∧ 0 < prePhys 1 ms ∧ ¬ 0 < mass (mixRaw [(0, 1)] true (preKept (0 : ℚ) 0 1 ms)).1 := by
+  have hk : preKept (0 : ℚ) 0 1 ([⟨1, 1, [([0, 1], 1)]⟩] : List (Member ℚ)) = [⟨1, 1, [([0, 1], 1)]⟩] := by
+    norm_num [preKept, preThreshold, preMaxP]
+  refine ⟨?_, by norm_num, ?_, hk, by norm_num [prePhys], ?_⟩
+  · intro m hm
+    simp only [List.mem_cons, List.not_mem_nil, or_false] at hm
+    subst hm; norm_num
+  · intro m hm
+    simp only [List.mem_cons, List.not_mem_nil, or_false] at hm
+    subst hm
+    exact ⟨by intro e he; simp at he; subst he; norm_num, by norm_num [mass]⟩
+  · rw [hk]
+    norm_num [mixRaw, mixAdd, memberRaw, selectHeralds, heraldsOk, mass]
+
+/-- **`probs_svd_mix_pnr_law` with its positivity hypotheses DERIVED**: positive weights of total at most one,
+non-negative member dictionaries, and one kept member with positive mass in what the backend returns for it. -/
+theorem probs_svd_mix_pnr_law_of_weights (minP rel : K) (ds : List (AnyDet K)) (ms : List (Member K)) (n : ℕ)
+    (hbase : ∀ m ∈ ms, (keys m.base).Nodup ∧ KeysLen m.base n)
+    (hp : ∀ m ∈ ms, 0 < m.p) (hsum : (ms.map (·.p)).sum ≤ 1) (hnn : ∀ m ∈ ms, Nonneg m.base)
+    (uf F : ℕ) (h : List (ℕ × ℕ)) (hF : F = uf + (h.map (·.2)).sum) (ps : PS) (keep : Bool)
+    (hchk : checkHeralds h ds = .ok true) (hty : detectionType ds = .PNR)
+    (hsupp : ∃ m ∈ preKept minP rel F ms, 0 < mass (memberRaw h (useMask h ds) m)) :
+    ∃ out, probsSvdMix minP rel ms ds uf h ps keep = .ok out ∧
+      out.phys = prePhys F ms ∧
+      out.logical = mass ((mixRaw h (useMask h ds) (preKept minP rel F ms)).1.filter
+        fun e => accepted ps h e.1) / prePhys F ms ∧
+      ∀ t : List ℕ, t.length = n → accepted ps h t = true → out.logical ≠ 0 →
+        out.phys * out.logical * prob out.results (reportState h keep t)
+          = ((preKept minP rel F ms).map fun m => m.p * prob m.base t).sum := by
+  obtain ⟨hD, hphys0⟩ := (probs_svd_mix_pnr_hyps_iff minP rel F h (useMask h ds) ms hp hsum hnn).mpr hsupp
+  exact probs_svd_mix_pnr_law minP rel ds ms n hbase uf F h hF ps keep hchk hty hD hphys0
+
+/-- **closed form of `logical_perf` for a mixed input through imperfect detectors** (hypotheses of `probs_svd_mix_law`):
+with `kept` the members that pass the input filter, `W` their total weight and, for a member `m`,
+`acc_m` = the mass of ITS readings law (`simulate_detectors` on `base_m` alone, before `normalize()`) that passes the
+filter and is accepted by the heralds and the expression, `phys_m` = its `phys_perf`:
+* `physical_perf · logical_perf = ∑_{m ∈ kept} p_m · acc_m`;
+* `logical_perf · (prePhys · ∑_{m ∈ kept} p_m · phys_m) = W · ∑_{m ∈ kept} p_m · acc_m` (division-free closed form). -/
+theorem probs_svd_mix_logical_closed {minP : K} (hmin : minP ≤ 0) (ds : List (AnyDet K)) (hwf : ∀ d ∈ ds, d.WF)
+    (ms : List (Member K)) (hp : ∀ m ∈ ms, 0 < m.p)
+    (hbase : ∀ m ∈ ms, Nonneg m.base ∧ mass m.base = 1 ∧ ∀ e ∈ m.base, e.1.length = ds.length)
+    (uf F : ℕ) (h : List (ℕ × ℕ)) (hF : F = uf + (h.map (·.2)).sum) (ps : PS) (keep : Bool)
+    (hchk : checkHeralds h ds = .ok true) (hty : detectionType ds ≠ .PNR)
+    (hkept : (ms.filter fun m => decide (F ≤ m.n)) ≠ []) (hphys0 : 0 < prePhys F ms)
+    (hR : mass (simulateRaw minP
+      (normalize (mixRaw h false (ms.filter fun m => decide (F ≤ m.n))).1) ds (some F)).1 ≠ 0) :
+    ∃ out, probsSvdMix minP 0 ms ds uf h ps keep = .ok out ∧
+      out.phys * out.logical
+        = ((ms.filter fun m => decide (F ≤ m.n)).map fun m =>
+            m.p * mass ((simulateRaw minP m.base ds (some F)).1.filter fun e => accepted ps h e.1)).sum ∧
+      out.logical * (prePhys F ms * ((ms.filter fun m => decide (F ≤ m.n)).map fun m =>
+            m.p * (simulateRaw minP m.base ds (some F)).2).sum)
+        = ((ms.filter fun m => decide (F ≤ m.n)).map (·.p)).sum *
+          ((ms.filter fun m => decide (F ≤ m.n)).map fun m =>
+            m.p * mass ((simulateRaw minP m.base ds (some F)).1.filter fun e => accepted ps h e.1)).sum := by
+  -- the output of the model is unique: take the one of `probs_svd_mix_law` for the physical performance
+  obtain ⟨out0, hout0, hphys, _⟩ := probs_svd_mix_law hmin ds hwf ms hp hbase uf F h hF ps keep hchk hty hkept hphys0 hR
+  set kept := ms.filter fun m => decide (F ≤ m.n) with hkdef
+  have hkm : ∀ m ∈ kept, m ∈ ms := fun m hm => (List.mem_filter.mp hm).1
+  have hmask : useMask h ds = false := by unfold useMask; simp [hty]
+  have hraw : ∀ m : Member K, memberRaw h false m = m.base := fun m => rfl
+  set D := (mixRaw h false kept).1 with hD
+  set W := (kept.map (·.p)).sum with hW
+  have hDmass : mass D = W := by
+    rw [hD, mixRaw_mass, hW]
+    congr 1
+    apply List.map_congr_left
+    intro m hm
+    rw [hraw, (hbase m (hkm m hm)).2.1, mul_one]
+  have hWpos : 0 < W := by
+    apply List.sum_pos
+    · intro x hx
+      obtain ⟨m, hm, rfl⟩ := List.mem_map.mp hx
+      exact hp m (hkm m hm)
+    · intro hnil
+      exact hkept (List.map_eq_nil_iff.mp hnil)
+  have hWne : mass D ≠ 0 := by rw [hDmass]; exact ne_of_gt hWpos
+  have hDnn : Nonneg D := mixRaw_nonneg h false kept (fun m hm => (hp m (hkm m hm)).le)
+    (fun m hm => by rw [hraw]; exact (hbase m (hkm m hm)).1)
+  have hDlen : KeysLen D ds.length := mixRaw_keysLen h false kept ds.length
+    (fun m hm => by rw [hraw]; exact (hbase m (hkm m hm)).2.2)
+  set res := normalize D with hres
+  have hres1 : mass res = 1 := mass_normalize D hWne
+  have hresnn : Nonneg res := normalize_nonneg D hDnn (by rw [hDmass]; exact hWpos)
+  have hreslen : ∀ e ∈ res, e.1.length = ds.length := hDlen.normalize
+  have hresne : res.isEmpty = false := by
+    cases hr : res with
+    | nil => rw [hr] at hres1; simp at hres1
+    | cons e l => rfl
+  have hbr : ¬ (res.isEmpty ∨ detectionType ds = .PNR) := by rw [hresne]; simpa using hty
+  have hmix2 : (mixRaw h false kept).2 = W := by rw [mixRaw_snd, ← hD, hDmass]
+  obtain ⟨out', ho', hph', hlg', _⟩ := probs_svd_conditioned_law hmin ds hwf res hresnn hreslen hres1 (some F) h ps keep
+    hchk hty hR
+  have ho'' : probsSvd minP res ds (some F) h ps keep
+      = .ok ⟨(postSelect ps h keep (simulate minP res ds (some F)).1).1, 1 * (simulate minP res ds (some F)).2,
+          mass res * (postSelect ps h keep (simulate minP res ds (some F)).1).2⟩ := by
+    unfold probsSvd
+    rw [hchk]
+    simp only [hmask, Bool.false_eq_true, if_false, normalize_of_mass_one res hres1, hresne]
+  rw [ho''] at ho'
+  have hout' := (Except.ok.inj ho').symm
+  set a := simulate minP res ds (some F) with ha
+  set b := postSelect ps h keep a.1 with hb
+  have hout : probsSvdMix minP 0 ms ds uf h ps keep
+      = .ok ⟨b.1, prePhys F ms * a.2, (W / prePhys F ms) * b.2⟩ := by
+    unfold probsSvdMix
+    rw [hchk]
+    simp only [← hF, preThreshold_exact hmin, preKept_exact hmin F ms hp, hmask, ← hkdef, ← hD, ← hres, hresne,
+      Bool.false_eq_true, if_false, simulateThr_zero, ← ha, ← hb, hmix2, hWpos, hphys0, and_self, if_true]
+  set R := (simulateRaw minP res ds (some F)).1 with hRdef
+  -- the three ingredients
+  have hb2 : b.2 = mass (a.1.filter fun e => accepted ps h e.1) := by
+    rw [hout'] at hlg'
+    simp only [hres1, one_mul] at hlg'
+    exact hlg'
+  have ha2 : a.2 = mass R := by
+    rw [hout'] at hph'
+    simp only [one_mul] at hph'
+    exact hph'
+  have ha1 : a.1 = normalize R := by
+    rw [ha]; unfold simulate; simp only [if_neg hbr]; rfl
+  have hacc : mass (R.filter fun e => accepted ps h e.1)
+      = (kept.map fun m =>
+          m.p * mass ((simulateRaw minP m.base ds (some F)).1.filter fun e => accepted ps h e.1)).sum / W := by
+    rw [hRdef, simulateRaw_accMass_linear hmin ds hwf res hresnn hreslen (some F) (fun t => accepted ps h t) hbr,
+      hres, sum_normalize D hWne (fun s => accOf minP ds (some F) (fun t => accepted ps h t) s), hD,
+      mixRaw_sum h false kept (fun s => accOf minP ds (some F) (fun t => accepted ps h t) s), ← hD, hDmass]
+    congr 2
+    apply List.map_congr_left
+    intro m hm
+    have hmne : ¬ (m.base.isEmpty ∨ detectionType ds = .PNR) := by
+      have h1 := (hbase m (hkm m hm)).2.1
+      cases hmb : m.base with
+      | nil => rw [hmb] at h1; simp at h1
+      | cons e l => simpa using hty
+    rw [hraw, simulateRaw_accMass_linear hmin ds hwf m.base (hbase m (hkm m hm)).1 (hbase m (hkm m hm)).2.2 (some F)
+      (fun t => accepted ps h t) hmne]
+  have hP : prePhys F ms ≠ 0 := ne_of_gt hphys0
+  have hW' : W ≠ 0 := ne_of_gt hWpos
+  have hprod : prePhys F ms * a.2 * ((W / prePhys F ms) * b.2)
+      = (kept.map fun m =>
+          m.p * mass ((simulateRaw minP m.base ds (some F)).1.filter fun e => accepted ps h e.1)).sum := by
+    rw [hb2, ha1, mass_filter_normalize _ R hR, ha2, hacc]
+    field_simp
+  have hsame : out0 = ⟨b.1, prePhys F ms * a.2, (W / prePhys F ms) * b.2⟩ := by
+    rw [hout] at hout0
+    exact (Except.ok.inj hout0).symm
+  refine ⟨_, hout, hprod, ?_⟩
+  rw [hsame] at hphys
+  simp only at hphys
+  show (W / prePhys F ms) * b.2 * _ = W * _
+  rw [← hphys, ← hprod]
+  ring
+
 end mixture
 
 /-- **the quirk on a concrete input** (replayed on the real code by the harness, corpus
@@ -1709,6 +1931,46 @@ theorem detect_history_minp_fails_on_current_code :
   simp [staleOuts, firstP, Det.detect, Det.type, hb] at h1
   rw [ha] at h1
   simp at h1
+
+/-- **exact law of the PINNED `BSLayeredPPNR`** (target of round 6): along ANY history of `detect(n)` calls at ANY sequence
+of `min_p` values and `clear_cache()` calls, every `detect(n)` returns the fresh dictionary at the `min_p` of the FIRST
+`detect(n)` made SINCE THE LAST `clear_cache()` (`bsStaleOuts`), whatever `min_p` is now (`n < 2`: the state itself). -/
+theorem bs_history_minp_pinned_law (L : ℕ) (r : K) (ops : List (Option (K × ℕ))) :
+    (SM.run (bsInstH false L r) ⟨[], none⟩ ops).2 = bsStaleOuts L r [] ops :=
+  bs_stale_run L r ops [] _ (BsH.stale_init L r none)
+
+/-- the pinned tree is transparent as long as `min_p` never changes (corollary of the exact law) -/
+theorem bs_history_minp_pinned_constant (L : ℕ) (r minP : K) (ops : List (Option ℕ)) :
+    (SM.run (bsInstH false L r) ⟨[], none⟩ (ops.map fun o => o.map fun n => (minP, n))).2
+      = ops.map fun o => o.map fun n => (n, bsDetectP minP L r n) := by
+  rw [bs_history_minp_pinned_law]
+  exact bsStaleOuts_const L r minP ops [] (by intro e he; cases he)
+
+/-- **`clear_cache()` is the work-around on the pinned code**: after ANY history, `clear_cache()` followed by `detect(n)`
+answers at the CURRENT `min_p`, and the rest of the history goes on from that single call -/
+theorem bs_history_minp_pinned_clear_refreshes (L : ℕ) (r : K) (ops : List (Option (K × ℕ))) (op : K × ℕ)
+    (rest : List (Option (K × ℕ))) :
+    (SM.run (bsInstH false L r) (SM.exec (bsInstH false L r) ⟨[], none⟩ ops) (none :: some op :: rest)).2
+      = none :: some (op.2, bsDetectP op.1 L r op.2) :: bsStaleOuts L r [op] rest := by
+  obtain ⟨pre, hpre⟩ := bs_stale_exec L r ops [] _ (BsH.stale_init L r none)
+  rw [bs_stale_run L r _ pre _ hpre, bsStaleOuts_after_clear]
+
+/-- **the defect of the pinned tree on `BSLayeredPPNR`** (`BSLayeredPPNR(1)`, reflectivity 1/2: `detect(2)` first at
+`min_p = 1/4`, then at `min_p = 0`): the second call returns the dictionary of the first, `{|2>: 1/2}`, instead of
+`{|1>: 1/2, |2>: 1/2}` -/
+theorem bs_history_minp_fails_on_current_code :
+    ¬ ∀ (L : ℕ) (r : ℚ) (ops : List (Option (ℚ × ℕ))),
+      (SM.run (bsInstH false L r) ⟨[], none⟩ ops).2 = ops.map (bsFresh L r) := by
+  intro h
+  have h1 := h 1 (1 / 2) [some (1 / 4, 2), some (0, 2)]
+  rw [bs_history_minp_pinned_law] at h1
+  have ha : aggregate (treeOccP (1 / 4 : ℚ) (1 / 2) 1 2) = [(2, 1 / 2)] := by
+    norm_num [aggregate, treeOccP, treeOcc, scaleTensor, clicks, bump, List.range_succ, List.flatMap, Nat.choose]
+  have hb : aggregate (treeOccP (0 : ℚ) (1 / 2) 1 2) = [(1, 1 / 2), (2, 1 / 2)] := by
+    norm_num [aggregate, treeOccP, treeOcc, scaleTensor, clicks, bump, List.range_succ, List.flatMap, Nat.choose]
+  simp only [bsStaleOuts, bsFresh, firstP, bsDetectP, List.map_cons, List.map_nil, List.nil_append, List.find?_nil,
+    List.find?_cons, Option.map_none, Option.getD_none] at h1
+  norm_num [ha, hb] at h1
 
 end minpHistory
 
@@ -2056,6 +2318,55 @@ example : mkDetector (some 3) none = .ok (.wired 3 3) ∧ (0 : ℚ) ≤ 0 ∧ (1
   omega
 
 
+/-- round 6, `probs_svd_mix_pnr_hyps_iff` / `probs_svd_mix_pnr_law_of_weights`: hypotheses satisfiable at the shipped
+`min_p = 1e-16` and precision `1e-3` — the lossy two-mode mixture of the example above, herald `{0: 1}` (mask on): the
+first member keeps the mass `1/2` on `|1,1>` -/
+example :
+    let ds : List (AnyDet ℚ) := []
+    let h : List (ℕ × ℕ) := [(0, 1)]
+    let ms : List (Member ℚ) := [⟨1 / 2, 2, [([1, 1], 1 / 2), ([2, 0], 1 / 2)]⟩, ⟨1 / 2, 1, [([1, 0], 1 / 2), ([0, 1], 1 / 2)]⟩]
+    (∀ m ∈ ms, 0 < m.p) ∧ (ms.map (·.p)).sum ≤ 1 ∧ (∀ m ∈ ms, Nonneg m.base) ∧
+      ∃ m ∈ preKept (1 / 10000000000000000 : ℚ) (1 / 1000) 1 ms, 0 < mass (memberRaw h (useMask h ds) m) := by
+  have hk : preKept (1 / 10000000000000000 : ℚ) (1 / 1000) 1
+      ([⟨1 / 2, 2, [([1, 1], 1 / 2), ([2, 0], 1 / 2)]⟩, ⟨1 / 2, 1, [([1, 0], 1 / 2), ([0, 1], 1 / 2)]⟩] : List (Member ℚ))
+      = [⟨1 / 2, 2, [([1, 1], 1 / 2), ([2, 0], 1 / 2)]⟩, ⟨1 / 2, 1, [([1, 0], 1 / 2), ([0, 1], 1 / 2)]⟩] := by
+    norm_num [preKept, preThreshold, preMaxP]
+  have hm : useMask [(0, 1)] ([] : List (AnyDet ℚ)) = true := by
+    simp [useMask, detectionType]
+  refine ⟨?_, by norm_num, ?_, ?_⟩
+  · intro m hm'
+    simp only [List.mem_cons, List.not_mem_nil, or_false] at hm'
+    rcases hm' with rfl | rfl <;> norm_num
+  · intro m hm'
+    simp only [List.mem_cons, List.not_mem_nil, or_false] at hm'
+    rcases hm' with rfl | rfl <;> (intro e he; simp at he; rcases he with rfl | rfl <;> norm_num)
+  · rw [hk, hm]
+    refine ⟨_, List.mem_cons_self, ?_⟩
+    norm_num [memberRaw, selectHeralds, heraldsOk, mass]
+
+/-- round 6, `probs_svd_mix_pnr_hyps_nomask_iff` / `preprocess_phys_pos_iff`: hypotheses satisfiable, and its right-hand side holds at the shipped
+parameters for the lossy source `{|2>: 1/2, |1>: 1/2}` (threshold `max(1e-16, 1/2·1e-3)` below `max_p = 1/2`) -/
+example :
+    let ms : List (Member ℚ) := [⟨1 / 2, 2, [([2], 1)]⟩, ⟨1 / 2, 1, [([1], 1)]⟩]
+    (∀ m ∈ ms, 0 < m.p) ∧ (ms.map (·.p)).sum ≤ 1 ∧ (∀ m ∈ ms, mass m.base = 1) ∧
+      preThreshold (1 / 10000000000000000 : ℚ) (1 / 1000) 0 ms < preMaxP 0 ms ∧ (ms.map (·.p)).sum = 1 := by
+  refine ⟨?_, by norm_num, ?_, by norm_num [preThreshold, preMaxP], by norm_num⟩
+  · intro m hm
+    simp only [List.mem_cons, List.not_mem_nil, or_false] at hm
+    rcases hm with rfl | rfl <;> norm_num
+  · intro m hm
+    simp only [List.mem_cons, List.not_mem_nil, or_false] at hm
+    rcases hm with rfl | rfl <;> norm_num [mass]
+
+/-- round 6, `probs_svd_mix_logical_closed`: its hypotheses are literally those of `probs_svd_mix_law` (example above:
+the mixture `{|2>: 1/2, |1>: 1/2}` on `Detector.ppnr(2)`).  `bs_history_minp_pinned_law` carries no hypothesis; a value of
+its right-hand side: the second `detect(2)` is answered at the first call's `min_p`, a `clear_cache()` resets that -/
+example : bsStaleOuts 1 (1 / 2 : ℚ) [] [some (1 / 4, 2), some (0, 2), none, some (0, 2)]
+    = [some (2, bsDetectP (1 / 4) 1 (1 / 2) 2), some (2, bsDetectP (1 / 4) 1 (1 / 2) 2), none,
+        some (2, bsDetectP 0 1 (1 / 2) 2)] := by
+  simp [bsStaleOuts, firstP]
+
+
 /-
   STILL NOT PROVED (validated by the correspondence only):
   * that the native SLOS backend implements the Fock amplitude specification `perm(U[t|s])/√(∏s!∏t!)` on
@@ -2073,15 +2384,23 @@ example : mkDetector (some 3) none = .ok (.wired 3 3) ∧ (0 : ℚ) ≤ 0 ∧ (1
   * mixed inputs: `probs_svd_mix_law` is stated at exact parameters (`min_p ≤ 0`, precision 0, positive weights, normalised
     non-negative member distributions, non-PNR detector list, `kept ≠ []`, retained mass `≠ 0`); at the shipped `1e-16` /
     a positive precision the model `probsSvdMix` is what the correspondence compares, and the deviation of its
-    `simulate_detectors` step is the one bounded above; `logical_perf` is characterised through the pointwise identity
-    (its closed form as a weighted sum of the members' accepted masses is not stated separately); members are
+    `simulate_detectors` step is the one bounded above; the closed form of `logical_perf` as the weighted sum of
+    the members' accepted masses is PROVED in round 6 at the same exact parameters (`probs_svd_mix_logical_closed`; the
+    linearity of the accepted mass, `simulateRaw_accMass_linear`, needs `min_p ≤ 0` — at a positive `min_p` the `add` calls
+    drop contributions member by member and only the slack bounds above apply); members are
     un-annotated Fock states (superposed / partially distinguishable inputs belong to C03–C05); the all-PNR (mask) path of
-    the mixture is PROVED in round 4 for every `min_p` and precision (`probs_svd_mix_pnr_law`);
+    the mixture is PROVED in round 4 for every `min_p` and precision (`probs_svd_mix_pnr_law`), and in round 6 its two
+    positivity hypotheses are DERIVED: for positive weights of total ≤ 1 and non-negative member dictionaries they hold iff
+    a member kept by `_preprocess_svd` has positive (herald-selected) mass (`probs_svd_mix_pnr_hyps_iff`); without the mask
+    and with normalised members iff `max(min_p, max_p·precision) < max_p` (`probs_svd_mix_pnr_hyps_nomask_iff`); positive
+    weights and normalised members ALONE do not suffice under the mask (`probs_svd_mix_pnr_mass_needs_herald_support`);
   * the statistical quality of `BSDistribution.sample`; progress callbacks / cancellation;
   * histories that change `min_p` between calls are PROVED in round 4 for the repaired code
     (`detect_history_minp_eq_fresh`, `bs_history_minp_eq_fresh`; pinned code: `detect_history_minp_pinned_law`,
     `detect_history_minp_fails_on_current_code`); `copy()` of a detector (the copy shares `_cache`) is validated by the
-    correspondence only; no exact pinned-code law is stated for `BSLayeredPPNR` (same mechanism, compared through the driver).
+    correspondence only; the exact pinned-code law of `BSLayeredPPNR` (with `clear_cache()`) is PROVED in round 6
+    (`bs_history_minp_pinned_law`, `bs_history_minp_pinned_constant`, `bs_history_minp_pinned_clear_refreshes`,
+    `bs_history_minp_fails_on_current_code`).
 -/
 
 end examples
